@@ -450,7 +450,7 @@ def main(argv):
     c.sample({"case": lines[len(rcases) // 2][:200]})
     c.sample({"case": lines[1 + len(rcases) + 8][:200]})
 
-    results, events = codeclog.run_logged(impl, lines, timeout_case=5)
+    results, events = codeclog.run_logged(impl, lines, timeout_case=15, max_bad=4)
     if len(results) != len(lines):
         c.broken.append("harness hx_compress produced %d results for %d cases" % (len(results), len(lines)))
         return c.finish(rule="harness failed")
